@@ -1,4 +1,5 @@
 import PoorModel.HeaderValue
+import PoorModel.Date
 namespace Poor.Drv.HeaderValue
 open Poor Poor.HeaderValue
 
@@ -40,6 +41,23 @@ def handle : List String → String
        | none => "none"
        | some (unit, rs) => strEncode unit ++ "|" ++ (if rs.isEmpty then "none" else
            String.intercalate ";" (rs.map fun (a, b) => showRangeOpt a ++ ":" ++ showRangeOpt b)))
+    | none => "bad-op"
+  | ["date", ts] =>
+    match ts.toNat? with
+    | some t => strEncode (Poor.Date.timeToHttp t)
+    | none => "bad-op"
+  | ["dparse", v] =>
+    match strDecode v with
+    | some s =>
+      (match Poor.Date.httpToTime s with
+       | .ok t => "ok " ++ toString t
+       | .error => "ValueError"
+       | .unsupported => "unsupported")
+    | none => "bad-op"
+  | ["civil", ord] =>
+    match ord.toNat? with
+    | some o => let r := Poor.Date.ord2ymd o
+                s!"{r.1} {r.2.1} {r.2.2} {Poor.Date.ymd2ord r.1 r.2.1 r.2.2}"
     | none => "bad-op"
   | _ => "bad-op"
 
